@@ -6,4 +6,11 @@ from the source cannot hurt; a new one (or one more of a kind) breaks the tie an
 def within (xs allowed : List (String × String × String)) : Bool :=
   xs.all (fun x => xs.count x ≤ allowed.count x)
 
+/-- every reviewed test is still in the code: `expected` is the list of comparisons the model relies on, `found` the
+regenerated set of all comparisons with integer constants of the package, in normal form (`tools/factgen`,
+`pkgComparisons`: constant on the right, `!=` as `==`, tagged `case` as `==`, named constants resolved).  The
+relation ignores names, order, helper functions and additional tests; it breaks when a bound or the direction of a
+reviewed test changes. -/
+def allIn (expected found : List String) : Bool := expected.all (fun e => found.contains e)
+
 end PsVerif.Props.Ties
